@@ -400,6 +400,31 @@ def _normalise(facts):
                     new["callee"] = c
                 replace(n, new)
                 return
+        if k == "If" and "else" in n:
+            # `if !c { A } else { B }`  ->  `if c { B } else { A }`
+            c0 = peel(n.get("cond"))
+            if isinstance(c0, dict) and c0.get("k") == "Unary" and c0.get("op") == "Not" and (c0.get("ty") in (None, "bool")):
+                n["cond"] = c0["x"]
+                n["then"], n["else"] = n["else"], n["then"]
+                n["normalised"] = True
+            elif isinstance(c0, dict) and c0.get("k") == "Binary" and c0.get("op") == "Ne" and c0.get("normalised"):
+                # (a negation that was folded into `!=` just above)
+                c0["op"] = "Eq"
+                cc = c0.get("callee")
+                if isinstance(cc, dict) and cc.get("name") == "ne":
+                    cc = dict(cc)
+                    cc["name"] = "eq"
+                    c0["callee"] = cc
+                n["then"], n["else"] = n["else"], n["then"]
+                n["normalised"] = True
+            elif isinstance(c0, dict) and c0.get("k") == "MethodCall" and c0.get("method") == "is_none" and c0.get("normalised") and "Option" in ((c0.get("callee") or {}).get("path") or ""):
+                c0["method"] = "is_some"
+                cc = dict(c0.get("callee") or {})
+                cc["name"] = "is_some"
+                cc["path"] = (cc.get("path") or "").rsplit("::", 1)[0] + "::is_some"
+                c0["callee"] = cc
+                n["then"], n["else"] = n["else"], n["then"]
+                n["normalised"] = True
         if k == "Binary" and n.get("op") in ("Eq", "Ne", "Gt", "Lt") and "l" in n and "r" in n:
             l, r = peel(n["l"]), peel(n["r"])
             # <constant> == x  ->  x == <constant>
@@ -502,6 +527,38 @@ def _normalise(facts):
             """`&place`: a shared view that can be read through at every use"""
             e = peel(e)
             return isinstance(e, dict) and e.get("k") == "AddrOf" and not e.get("mut") and place_text(e.get("x")) is not None
+
+        # `let c = <condition>; if c { .. }`: a boolean computed for the very next `if` is that `if`'s condition
+        for n in _walk_json(body):
+            if n.get("k") != "Block":
+                continue
+            sts = n.get("stmts", [])
+            for i_, st in enumerate(sts):
+                if not (st.get("k") == "Let" and st.get("init") is not None and "els" not in st and (st.get("pat") or {}).get("k") == "Binding" and (st["pat"].get("ty") == "bool" or (peel(st["init"]) or {}).get("ty") == "bool")):
+                    continue
+                lid = st["pat"]["local"]
+                us = uses.get(lid, [])
+                if len(us) != 1 or ("#%s" % lid) in assigned:
+                    continue
+                nxt = sts[i_ + 1] if i_ + 1 < len(sts) else None
+                nxt_e = (nxt.get("e") if nxt is not None and nxt.get("k") != "Let" else (nxt.get("init") if nxt is not None else None)) if nxt is not None else n.get("tail")
+                nx = peel(nxt_e) if nxt_e is not None else None
+                while isinstance(nx, dict) and nx.get("k") in ("BlockExpr",) and not nx.get("block", {}).get("stmts") and "tail" in nx.get("block", {}):
+                    nx = peel(nx["block"]["tail"])
+                if not (isinstance(nx, dict) and nx.get("k") == "If" and any(x is us[0] for x in _walk_json(nx.get("cond")))):
+                    continue
+                new = copy.deepcopy(peel(st["init"]))
+                for x in _walk_json(new):
+                    if "id" in x:
+                        x["id"] = fresh()
+                use = us[0]
+                uid = use.get("id")
+                use.clear()
+                use.update(new)
+                use["id"] = uid
+                use["normalised"] = True
+                use["inlined_local"] = lid
+                uses[lid] = []
 
         for lid, st in lets.items():
             us = uses.get(lid, [])
